@@ -188,6 +188,24 @@ def charts(ctx: fw.Ctx, out: fw.Outcome):
         # anchors are reported in file order: several on one tick keep the order they were written in, whatever their values
         src.anchors.sort(key=lambda a_: a_[0])
         cases.append((src, gen.render(src, rng, prof)))
+    # always: tempo, signature and anchor lines at ticks beyond 2^31 / 2^32 / 2^33 (ten and more digits) …
+    for far in (2**31 - 1, 2**32 - 1, 2**32, 2**32 + 192, 2**33 + 7, 10**10, 10**12):
+        src = gen.rand_src(rng, prof)
+        src.res = src.meta["resolution"] = 192
+        src.tempo = [(0, 120000), (far, 90000), (far + 5, 150500)]
+        src.tss = [(0, 4, None), (far, 3, 3), (far + 1, 7, None)]
+        src.anchors = [(far, 12345), (far + 2, 2**40)]
+        cases.append((src, gen.render(src, rng, gen.Profile(max_tracks=0, max_events=0, garbage=0.0, unknown_sections=0.0, meta_fields=0.0, exotic_pad=0.0, exotic_digits=0.0))))
+    # … and the shortest lines there are: one-digit ticks and values, no indentation, nothing after the number
+    for body in (["0 = TS 4", "0 = B 5", "0 = A 0", "8 = A 9"], ["0 = B 1", "0 = TS 1", "1 = B 2", "1 = TS 2 0", "9 = A 1"], ["0 = TS 9 0", "0 = B 9"]):
+        text = "[Song]\n{\n  Resolution = 192\n}\n[SyncTrack]\n{\n" + "\n".join(body) + "\n}\n[Events]\n{\n}\n"
+        tempo_ = [(int(l.split()[0]), int(l.split()[3])) for l in body if " B " in l]
+        tss_ = [(int(l.split()[0]), int(l.split()[3]), (int(l.split()[4]) if len(l.split()) > 4 else None)) for l in body if " TS " in l]
+        an_ = [(int(l.split()[0]), int(l.split()[3])) for l in body if " A " in l]
+        src = gen.ChartSrc(192, {"resolution": 192}, tempo_, tss_, an_, [], [], [])
+        R_ = gen.Rendered()
+        R_.text, R_.sections, R_.lines = text, [("Song", ["  Resolution = 192"]), ("SyncTrack", body), ("Events", [])], text.split("\n")
+        cases.append((src, R_))
     a, b = common.run_charts([(R.text, None) for _, R in cases])
     for (src, R), x, y in zip(cases, a, b):
         dx, dy = gen.parse_dump(x), gen.parse_dump(y)
